@@ -514,11 +514,15 @@ def rule_c08_close_marks_connection(ctx):
     rules_c10.rule_verdict(ctx)
 
 
-C08_RULES = [rule_c08_readers, rule_c08_completion, rule_read_forwarding, rule_c08_close_marks_connection]
+from .rules_wrappers import rules_for as _rules_for
+_fw_C08 = _rules_for("C08")
+C08_RULES = [rule_c08_readers, rule_c08_completion, rule_read_forwarding, rule_c08_close_marks_connection, _fw_C08]
 def rule_c04_exact_min(ctx):
     """`each body write copies min(input, output space, remaining)`: the exactness half (nothing held back) is R18.5, shared"""
     from .rules_c18 import rule_sized_exact
     rule_sized_exact(ctx)
 
 
-C04_RULES = [rule_c04_write, rule_c04_exact_min, rule_c04_direct, rule_c04_who_writes]
+from .rules_wrappers import rules_for as _rules_for
+_fw_C04 = _rules_for("C04")
+C04_RULES = [rule_c04_write, rule_c04_exact_min, rule_c04_direct, rule_c04_who_writes, _fw_C04]
